@@ -105,6 +105,7 @@ type h2PeerConn struct {
 	buf    []byte
 	eof    bool
 	eofRep bool
+	self   bool // closed by the peer itself
 }
 
 type h2World struct {
@@ -129,6 +130,8 @@ type h2World struct {
 	realm    string
 	pendDial []*h2PeerConn
 	tokReal  []string
+	plannedCid int
+	onCid    func(idx int, key string, bound bool)
 }
 
 var h2Users = map[string]string{"alice": "pw-alice", "bob": "pw-bob"}
@@ -502,6 +505,9 @@ func (w *h2World) describeToClient(key string, b []byte) string {
 		if m.Type.Method == stun.MethodConnectionAttempt {
 			var cid proto.ConnectionID
 			_ = cid.GetFrom(m)
+			if w.onCid != nil {
+				w.onCid(w.canonCid(uint32(cid)), key, false)
+			}
 			return fmt.Sprintf("catt %s %s %d", key, canonIPPort(pa.IP, pa.Port), w.canonCid(uint32(cid)))
 		}
 		var d proto.Data
@@ -536,6 +542,9 @@ func (w *h2World) describeToClient(key string, b []byte) string {
 	var cid proto.ConnectionID
 	if cid.GetFrom(m) == nil {
 		s += fmt.Sprintf(" cid=%d", w.canonCid(uint32(cid)))
+		if w.onCid != nil && cls == "ok" {
+			w.onCid(w.canonCid(uint32(cid)), key, m.Type.Method == stun.MethodConnectionBind)
+		}
 	}
 	var tok proto.ReservationToken
 	if tok.GetFrom(m) == nil {
@@ -611,7 +620,8 @@ func (w *h2World) collect() []string {
 			default:
 			}
 		}
-		pc.cid = -1
+		pc.cid = w.plannedCid
+		outs = append(outs, fmt.Sprintf("dial %s %s %d", canonAddr(pc.conn.ra), canonAddr(pc.peer), pc.cid))
 		w.pconns = append(w.pconns, pc)
 		go pc.readLoop()
 	}
@@ -622,7 +632,7 @@ func (w *h2World) collect() []string {
 			outs = append(outs, fmt.Sprintf("p2p %d %d %s", pc.lid, pc.cid, vhHex(pc.buf)))
 			pc.buf = nil
 		}
-		if pc.eof && !pc.eofRep && pc.cid >= 0 {
+		if pc.eof && !pc.eofRep && pc.cid >= 0 && !pc.self {
 			pc.eofRep = true
 			outs = append(outs, fmt.Sprintf("cclosed %d %d %s", pc.lid, pc.cid, canonAddr(pc.peer)))
 		}
